@@ -82,7 +82,7 @@ package utils
 //@   modifies anycontent(uint), gDivN, gDivPri, gDivQ, gDivFilled
 //@   ensures [C18] suitable-implies-non-fatal: result ==> (gDivN == old(gDivN) + 2 * len(combinations)
 //@            && (forall j :: 0 <= j && j < len(combinations) ==> (gDivFilled[old(gDivN) + 2 * j] && gDivPri[old(gDivN) + 2 * j] == combinations[j] && gDivQ[old(gDivN) + 2 * j] == quantity)))
-//@   assume-arith mul-overflow[0]
+//@   assume-arith mul-overflow[*]
 //@   loop 0
 //@     invariant [* C18] gDivN == old(gDivN) + 2 * $i
 //@     invariant [* C18] forall j :: 0 <= j && j < $i ==> (gDivFilled[old(gDivN) + 2 * j] && gDivPri[old(gDivN) + 2 * j] == combinations[j] && gDivQ[old(gDivN) + 2 * j] == quantity)
